@@ -1176,3 +1176,7 @@ add("m13x", ["C13"], (P, "        self.shutdown_timeout = shutdown_timeout\n", "
 add("m10x", ["C10"], (S, "                               jobs_window=jobs_window, timeout=timeout,", "                               jobs_window=jobs_window, timeout=timeout or None,"), rules=["R10.8"])
 add("m08y", ["C08"], (P, "                self._failed_timeout = self.timeout\n", "                self._failed_timeout = self.timeout\n                self.timeout = None\n"), rules=["R08.6"])
 add("b05x", ["C05", "C09", "C08"], (J, "        self.forever = forever\n        self.critical = critical\n", "        self.critical = critical\n        self.forever = forever\n"), expect='silent')
+add("m13y", ["C13"], (J, "        if self.coshutdown:\n", "        if self.coshutdown and self.is_done():\n"), rules=["R13.9"],
+    note="only jobs that completed are shut down")
+add("m13z", ["C13"], (J, "        if self.coshutdown:\n", "        if not self.is_scheduled():\n            return None\n        if self.coshutdown:\n"), rules=["R13.9"])
+add("b13y", ["C13"], (J, "        if self.coshutdown:\n", "        if self.coshutdown is not None:\n"), expect='silent')
